@@ -218,6 +218,87 @@ def run_clock(case):
     return {"counts": vt.counts, "code": code}
 
 
+# ---- 3b. ONE Clock run several times (run, stop, virtual time passes, run again) ---------------------------------------
+class SegmentTime:
+    """the `time` module seen by isobar.timelines.clock during ONE run of a multi-run script: like VirtualTime; when the
+    run is to be ended from a tick callback (`stop_tick`) the readings go on into `spare` ones, which a clock that has
+    really stopped reads once and never acts on; the end of the spare readings stops the clock in any case."""
+    def __init__(self, readings, spare, between, counter, set_tempo, stop, by_callback):
+        self.all, self.n_main, self.between = list(readings) + list(spare), len(readings), between
+        self.i = 0
+        self.counts = []
+        self.counter, self.set_tempo, self.stop, self.by_callback = counter, set_tempo, stop, by_callback
+    def time(self):
+        return self.all[self.i]
+    def sleep(self, d):
+        self.counts.append(self.counter())
+        if self.i + 1 < self.n_main:
+            self.i += 1
+            t = self.between.get(str(self.i))
+            if t is not None:
+                self.set_tempo(t)
+        elif self.by_callback and self.i + 1 < len(self.all):
+            self.i += 1
+        else:
+            self.stop()
+
+
+def run_rerun(case):
+    cb = case.get("cb", {})
+    state = {"n": 0, "stop_tick": None}
+    if case["target"] == "timeline":
+        log = []
+        dev = Rec(None, 0, log)
+        tl = iso.Timeline(case["tempo"], output_device=dev, ticks_per_beat=case["tpb"])
+        clock = tl.clock_source
+        def on_tick():
+            i = state["n"]; state["n"] += 1
+            t = cb.get(str(i))
+            if t is not None:
+                tl.tempo = t
+            if i == state["stop_tick"]:
+                tl.stop()
+        dev.on_tick = on_tick
+        runner, stopper = tl.run, tl.stop
+        set_tempo = lambda t: setattr(tl, "tempo", t)
+    else:
+        class Target:
+            ticks_per_beat = case.get("target_rate")
+            def tick(self):
+                i = state["n"]; state["n"] += 1
+                t = cb.get(str(i))
+                if t is not None:
+                    clock.tempo = t
+                if i == state["stop_tick"]:
+                    clock.stop()
+        clock = iso.Clock(Target(), case["tempo"], case["tpb"])
+        runner, stopper = clock.run, clock.stop
+        set_tempo = lambda t: setattr(clock, "tempo", t)
+    saved = clock_module.time
+    all_counts, code = [], 0
+    try:
+        for seg in case["segments"]:
+            if seg.get("pre_tempo") is not None:
+                set_tempo(seg["pre_tempo"])                   # while the clock is stopped
+            state["stop_tick"] = seg.get("stop_tick")
+            vt = SegmentTime(seg["readings"], seg.get("spare", []), seg.get("between", {}), lambda: state["n"], set_tempo, stopper,
+                             seg.get("stop_tick") is not None)
+            clock_module.time = vt
+            try:
+                runner()
+            except Exception as e:
+                code = err_code(e)
+                vt.counts.append(state["n"])
+            all_counts.append(vt.counts)
+            if code != 0:
+                break
+    finally:
+        clock_module.time = saved
+    if not isinstance(code, int):
+        return {"error": code}
+    return {"counts": all_counts, "code": code}
+
+
 # ---- 4. MidiInputDevice._callback -----------------------------------------------------------------------------
 def make_msg(m):
     kind = m[0]
@@ -630,7 +711,7 @@ def main():
     out = {}
     real_stdout = sys.stdout
     sys.stdout = sys.stderr          # Timeline.run prints when its clock dies; keep that out of the JSON stream
-    for key, f in (("mult", run_mult), ("timeline", run_timeline), ("clock", run_clock),
+    for key, f in (("mult", run_mult), ("timeline", run_timeline), ("clock", run_clock), ("rerun", run_rerun),
                    ("midi_in", run_midi_in), ("midi_tl", run_midi_tl), ("midi_wired", run_midi_wired), ("reconfig", run_reconfig)):
         if key in req:
             out[key] = [guarded(f, c) for c in req[key]]
